@@ -209,11 +209,19 @@ def _child_main(tool, argv, cwd, fault, knobs, logpath, count_deep):
 
     codes = set()
     deep_files = set()
+    ds_classes = []
     if tool == "torch":
         codes.add(cl.signals_to_torch_feat_dir.__code__)
-        gi = cl._FeatureProcessorDataset.__getitem__
-        codes.add(getattr(gi, "__wrapped__", gi).__code__)
-        codes.add(gi.__code__)
+        # the tool's dataset class(es), whatever they are called: any torch Dataset subclass defined in command_line
+        import torch.utils.data as _tud
+
+        for obj in list(vars(cl).values()):
+            if isinstance(obj, type) and issubclass(obj, _tud.Dataset) and obj.__module__ == cl.__name__ \
+                    and "__getitem__" in vars(obj):
+                ds_classes.append(obj)
+                gi = obj.__getitem__
+                codes.add(getattr(gi, "__wrapped__", gi).__code__)
+                codes.add(gi.__code__)
         import torch.serialization as _ser
 
         deep_files.add(_ser.__file__)
@@ -239,14 +247,15 @@ def _child_main(tool, argv, cwd, fault, knobs, logpath, count_deep):
         return real_read(path, *a, **kw)
 
     cl.read_signal = read
-    if tool == "torch":
-        real_getitem = cl._FeatureProcessorDataset.__getitem__
+    for ds_cls in ds_classes:
+        def _wrap(real_getitem):
+            def getitem(self, idx):
+                tr.note("getitem", idx)
+                return real_getitem(self, idx)
 
-        def getitem(self, idx):
-            tr.note("getitem", idx)
-            return real_getitem(self, idx)
+            return getitem
 
-        cl._FeatureProcessorDataset.__getitem__ = getitem
+        ds_cls.__getitem__ = _wrap(ds_cls.__getitem__)
     mbuf = knobs.get("manifest_buffer")
     if mbuf:
         real_open = builtins.open
